@@ -312,6 +312,11 @@ func (x *Exec) verifAPI(name string, fn *ssa.Function, args []Value) (Value, boo
 		v := x.newInput(x.strArg(args[0]), 64)
 		lo, hi := args[1].(*smt.Term), args[2].(*smt.Term)
 		x.assume(s.BAnd(s.Sle(lo, v), s.Sle(v, hi)))
+		if lo.IsConst() && lo.SVal() >= 0 {
+			if hiv := x.interval(hi); hiv.hi < 1<<62 {
+				x.setRange(v, lo.Val, hiv.hi)
+			}
+		}
 		return v, true
 	case "Bytes", "String":
 		// Bytes(name, n): n concrete
@@ -383,6 +388,10 @@ func (x *Exec) verifAPI(name string, fn *ssa.Function, args []Value) (Value, boo
 			}
 		}
 		return x.c64(0), true
+	case "InPool":
+		// InPool(b []byte) bool: is the backing array currently owned by a sync.Pool?
+		sl := args[0].(Slice)
+		return s.Bool(sl.P.Obj != nil && sl.P.Obj.Ghost != nil && sl.P.Obj.Ghost["inpool"] == true), true
 	case "SetCap":
 		// SetCap(b []byte, cap int) []byte : shrink the logical capacity of the backing object view
 		sl := args[0].(Slice)
@@ -405,6 +414,14 @@ func (x *Exec) verifAPI(name string, fn *ssa.Function, args []Value) (Value, boo
 	case "Concretize":
 		v := x.Concretize(args[0].(*smt.Term))
 		return x.c64(int64(v)), true
+	case "JSONIsSpace", "JSONIsValidNumber":
+		target := map[string]string{"JSONIsSpace": "encoding/json.isSpace", "JSONIsValidNumber": "encoding/json.isValidNumber"}[name]
+		f := x.eng.Func(target)
+		if f == nil {
+			x.notEncoded("stdlib reference %s not loaded", target)
+		}
+		x.note("stdlib-oracle:" + target)
+		return x.call(f, args, nil), true
 	}
 	x.notEncoded("unknown verif API %s", name)
 	return nil, false
@@ -589,6 +606,67 @@ func init() {
 	intrinsics["sync/atomic.CompareAndSwapUint32"] = cas(4, lkInt)
 	intrinsics["sync/atomic.CompareAndSwapPointer"] = cas(8, lkPtr)
 
+	// sync.Pool: Get returns either a fresh object from New or ANY object that was Put before
+	// (nondeterministic choice, decided by forking); Put records the object.
+	intrinsics["(*sync.Pool).Get"] = func(x *Exec, fn *ssa.Function, a []Value) Value {
+		p := x.asPtr(a[0])
+		if p.Obj == nil {
+			x.goPanic("nil sync.Pool")
+		}
+		if p.Obj.Ghost == nil {
+			p.Obj.Ghost = map[string]interface{}{}
+		}
+		puts, _ := p.Obj.Ghost["pool"].([]Value)
+		for i := len(puts) - 1; i >= 0; i-- {
+			reuse := x.st.Var(x.uniqueName(fmt.Sprintf("pool!reuse")), 0)
+			if x.Branch(reuse) {
+				v := puts[i]
+				np := append([]Value{}, puts[:i]...)
+				np = append(np, puts[i+1:]...)
+				p.Obj.Ghost["pool"] = np
+				x.note("pool-get:reused")
+				for _, bo := range x.poolObjects(v) {
+					bo.Ghost["inpool"] = false
+				}
+				return v
+			}
+		}
+		// New field
+		pt := fn.Signature.Recv().Type().(*types.Pointer).Elem()
+		st := pt.Underlying().(*types.Struct)
+		offs := x.fieldOffsets(st)
+		for i := 0; i < st.NumFields(); i++ {
+			if st.Field(i).Name() == "New" {
+				nf := x.loadT(p, offs[i], st.Field(i).Type())
+				f, _ := nf.(*Func)
+				if f == nil {
+					return Iface{}
+				}
+				x.note("pool-get:new")
+				return x.call(f.Fn, nil, f.Env)
+			}
+		}
+		return Iface{}
+	}
+	intrinsics["(*sync.Pool).Put"] = func(x *Exec, fn *ssa.Function, a []Value) Value {
+		p := x.asPtr(a[0])
+		if p.Obj == nil {
+			x.goPanic("nil sync.Pool")
+		}
+		if p.Obj.Ghost == nil {
+			p.Obj.Ghost = map[string]interface{}{}
+		}
+		puts, _ := p.Obj.Ghost["pool"].([]Value)
+		for _, bo := range x.poolObjects(a[1]) {
+			if bo.Ghost["inpool"] == true {
+				x.check(x.st.False, "assert", "object put into a sync.Pool twice: "+bo.String())
+			}
+			bo.Ghost["inpool"] = true
+		}
+		p.Obj.Ghost["pool"] = append(puts, a[1])
+		return nil
+	}
+
 	// internal/bytealg & friends used by stdlib bodies we execute
 	intrinsics["internal/bytealg.IndexByteString"] = func(x *Exec, fn *ssa.Function, a []Value) Value {
 		return x.indexByte(a[0].(Str).P, a[0].(Str).Len, a[1].(*smt.Term))
@@ -606,6 +684,42 @@ func init() {
 	intrinsics["unsafe.String"] = func(x *Exec, fn *ssa.Function, a []Value) Value {
 		return Str{P: x.asPtr(a[0]), Len: a[1].(*smt.Term)}
 	}
+}
+
+// poolObjects lists the objects that become pool-owned when v is Put: the object v points
+// to and the objects directly referenced from it (e.g. the backing array of a *[]byte).
+func (x *Exec) poolObjects(v Value) []*Object {
+	iv, ok := v.(Iface)
+	if !ok {
+		return nil
+	}
+	var r []*Object
+	add := func(o *Object) {
+		if o == nil || o.ReadOnly {
+			return
+		}
+		if o.Ghost == nil {
+			o.Ghost = map[string]interface{}{}
+		}
+		if o.Ghost["global"] == true {
+			return
+		}
+		r = append(r, o)
+	}
+	switch bv := iv.V.(type) {
+	case Slice:
+		add(bv.P.Obj)
+	case Ptr:
+		add(bv.Obj)
+		if bv.Obj != nil {
+			for _, c := range bv.Obj.Cells {
+				if q, ok := c.v.(Ptr); ok && q.Obj != nil && q.Obj != bv.Obj {
+					add(q.Obj)
+				}
+			}
+		}
+	}
+	return r
 }
 
 func (x *Exec) indexByte(p Ptr, n *smt.Term, c *smt.Term) Value {
